@@ -41,6 +41,8 @@ claimed = {
 }
 
 pending = {
+}
+_old_pending = {
  "C05": "check not built yet (differential compact forks; DESIGN.md section 8)",
  "C12": "check not built yet (log corruption faults; DESIGN.md section 8)",
  "C18": "check not built yet (layout configurations; DESIGN.md section 8)",
